@@ -51,12 +51,12 @@ class StairsSlicer:
             "right",
             "both",
         ):
-            result = np.maximum(result, self._stairs(self._interval_index.right))
+            result = np.fmax(result, self._stairs(self._interval_index.right))
         elif self._stairs._closed == "right" and self._interval_index.closed in (
             "left",
             "both",
         ):
-            result = np.maximum(result, self._stairs(self._interval_index.left))
+            result = np.fmax(result, self._stairs(self._interval_index.left))
         return result
 
     @Appender(docstrings._docstrings["min"], join="\n", indents=1)
@@ -66,12 +66,12 @@ class StairsSlicer:
             "right",
             "both",
         ):
-            result = np.minimum(result, self._stairs(self._interval_index.right))
+            result = np.fmin(result, self._stairs(self._interval_index.right))
         elif self._stairs._closed == "right" and self._interval_index.closed in (
             "left",
             "both",
         ):
-            result = np.minimum(result, self._stairs(self._interval_index.left))
+            result = np.fmin(result, self._stairs(self._interval_index.left))
         return result
 
     @Appender(docstrings.hist_docstring, join="\n", indents=1)
